@@ -1,8 +1,9 @@
 (* C14 — TensorDict modules read in_keys, write out_keys, sequences compose soundly.  Property theorems only.
-   Model: Model/C14_Flow.v (dataflow), Model/C14_Interact.v (_dist_sample); spec: Spec/C14_Fold.v. *)
+   Model: Model/C14_Flow.v (dataflow), Model/C14_Interact.v (_dist_sample), Model/C14_Prob.v (key plumbing of probabilistic
+   modules); spec: Spec/C14_Fold.v. *)
 From Coq Require Import List String Bool.
 Import ListNotations.
-From TD Require Import Model.C14_Flow Model.C14_Interact Spec.C14_Fold Proofs.C14_FlowP Proofs.C14_SliceP Proofs.C14_InteractP.
+From TD Require Import Model.C14_Flow Model.C14_Interact Model.C14_Prob Spec.C14_Fold Proofs.C14_FlowP Proofs.C14_SliceP Proofs.C14_InteractP Proofs.C14_ProbP.
 
 (* ---- seq_is_fold: for EVERY module graph whose inner modules write in place (the top module may have any inplace
    mode, select_out_keys, tensordict_out), every environment: the module returns, and each advertised out key holds
@@ -65,21 +66,20 @@ Theorem C14_module_footprint_refuted_seq_select :
   exists n x k, ~ List.In k (out_keys n) /\ top_regular n = true /\ ~ footprint_statement n x None k.
 Proof. exact footprint_refuted_seq_select. Qed.
 Print Assumptions C14_module_footprint_refuted_seq_select.
-(* ... and another way (D143, kept: the test-suite pins it): update(keys_to_update) copies sibling leaves of a nested
-   out key into a tensordict_out that lacks the node *)
-Theorem C14_module_footprint_refuted_tout :
-  exists n x ot k, ~ List.In k (out_keys n) /\ noseqsel n = true /\ ~ footprint_statement n x (Some ot) k.
-Proof. exact footprint_refuted_tout. Qed.
-Print Assumptions C14_module_footprint_refuted_tout.
-(* on the complement — no select_out_keys on a sequence; leaf modules may select (D9 / D141 repaired); no two distinct
-   keys sharing their first component (the D143 region) — for EVERY
-   graph (any inplace modes at any level, partial_tolerant, nesting), every input, with or without tensordict_out *)
-Theorem C14_module_footprint_partial : forall U n x o, sibling_ok U -> noseqsel n = true -> buildable n = true ->
-  (forall k, List.In k (all_outs n) -> List.In k U) -> within U x ->
-  (forall ot, o = Some ot -> within U ot) ->
+(* on the complement -- no select_out_keys on a sequence; leaf modules may select (D9 / D141 repaired) -- for EVERY graph
+   (any keys, any inplace modes at any level, partial_tolerant, nesting), every input, with or without tensordict_out.
+   D143 repaired (forward copies its out_keys with select + update instead of update(keys_to_update)): the former
+   hypothesis "no two keys share their first component" is gone *)
+Theorem C14_module_footprint_partial : forall n x o, noseqsel n = true ->
   forall k, ~ List.In k (out_keys n) -> footprint_statement n x o k.
 Proof. exact footprint_partial. Qed.
 Print Assumptions C14_module_footprint_partial.
+(* the witness of D143 in the library before its repair (switch fixed_D143 = false): update(keys_to_update) copied sibling
+   leaves of a nested out key into a tensordict_out that lacked the node *)
+Theorem C14_module_footprint_refuted_tout_unrepaired :
+  exists n x ot k, ~ List.In k (out_keys n) /\ noseqsel n = true /\ ~ footprint_statement_gen false n x (Some ot) k.
+Proof. exact footprint_refuted_tout_unrepaired. Qed.
+Print Assumptions C14_module_footprint_refuted_tout_unrepaired.
 
 (* ---- subsequence_sound: for every module graph (any nesting, ModuleList or ModuleDict — D144 repaired), every key set S,
    every environment: the sequence returned by select_subsequence(out_keys=S) computes the SAME TERMS for S; it is again
@@ -147,6 +147,109 @@ Theorem C14_requires_sample : forall ks up,
 Proof. exact requires_sample_spec. Qed.
 Print Assumptions C14_requires_sample.
 
+
+(* ==== probabilistic modules: key plumbing (Model/C14_Prob.v; values are terms: a distribution is (module, keyword names,
+   parameter terms), a sample is "component j of what method a of that distribution returns") *)
+
+(* ---- the distribution is built from exactly the entries stored under the advertised in_keys: two tensordicts that agree
+   there give the same distribution, and its keywords / parameters are the dist_keys / the entries read (None if absent) *)
+Theorem C14_prob_dist_reads_in_keys : forall m x x', (forall k, List.In k (p_in m) -> pget k x = pget k x') ->
+  get_dist m x = get_dist m x'.
+Proof. exact dist_reads_in_keys. Qed.
+Print Assumptions C14_prob_dist_reads_in_keys.
+Theorem C14_prob_dist_params : forall m x d, get_dist m x = Some d ->
+  d_mod d = pid m /\ d_kw d = p_kw m /\ map Some (d_ps d) = map (fun k => par (pget k x)) (p_in m).
+Proof. exact dist_params. Qed.
+Print Assumptions C14_prob_dist_params.
+
+(* ---- the sample a plain module writes under its out key is the term "what the method prescribed by the interaction type
+   in force (context manager, else the module's default; C14_interact_table) returns on that distribution" *)
+Theorem C14_prob_sample_term : forall f148 f149 now ctx cap m x o k x' o',
+  p_comp m = None -> p_out m = [k] ->
+  (forall lk, p_rlp m = true -> log_prob_key_of now m = Some lk -> lk <> k) ->
+  pm_forward f148 f149 now ctx cap m x o true = PDone x' o' ->
+  exists d, get_dist m x = Some d
+    /\ pget k (dest x' o') = Some (PS d (dist_sample (resolve ctx (p_default m)) cap) 0).
+Proof. exact plain_sample_term. Qed.
+Print Assumptions C14_prob_sample_term.
+
+(* ---- log-probability keys are advertised: for every module (plain or composite, either aggregate mode) *)
+Theorem C14_prob_log_prob_keys_advertised : forall now m oks lpks, p_rlp m = true ->
+  pm_out_keys now m = Some oks -> log_prob_keys_of now m = Some lpks ->
+  forall k, List.In k lpks -> List.In k oks.
+Proof. exact log_prob_keys_advertised. Qed.
+Print Assumptions C14_prob_log_prob_keys_advertised.
+
+(* ---- footprint of a probabilistic module, full statement: whatever the settings, entries outside the advertised out_keys
+   are the same bindings afterwards (in the destination; with tensordict_out the input is not written at all) *)
+Definition C14_prob_footprint_full_statement : Prop :=
+  forall now ctx cap m x o req x' o' oks,
+  pm_forward true true now ctx cap m x o req = PDone x' o' -> pm_out_keys now m = Some oks ->
+  forall k, ~ List.In k oks -> pget k (dest x' o') = pget k (dest x o) /\ (o <> None -> x' = x).
+(* false for composite modules in the legacy aggregate mode (D147, kept: the test-suite pins both the advertised out_keys
+   and the per-leaf entries) *)
+Theorem C14_prob_footprint_refuted_aggregate : exists m, pm_init true (comp_args true None) = Some m
+  /\ pm_out_keys true m = Some [kA; kB; slp]
+  /\ written (pm_forward true true true None comp_cap m x0 None true) = [kP; kA; kB; add_suffix kA; add_suffix kB; slp].
+Proof. exact composite_aggregate_refuted. Qed.
+Print Assumptions C14_prob_footprint_refuted_aggregate.
+(* proved for every plain module: any interaction type, return_log_prob, log_prob_key, dict in_keys, tensordict_out, with or
+   without sampling, either aggregate mode (composite modules in per-leaf mode: compared with the code by the pm-fwd stream) *)
+Theorem C14_prob_footprint_partial : forall f148 f149 now ctx cap m x o req x' o' oks,
+  p_comp m = None ->
+  pm_forward f148 f149 now ctx cap m x o req = PDone x' o' -> pm_out_keys now m = Some oks ->
+  forall k, ~ List.In k oks -> pget k (dest x' o') = pget k (dest x o) /\ (o <> None -> x' = x).
+Proof. exact plain_footprint. Qed.
+Print Assumptions C14_prob_footprint_partial.
+
+(* ---- a probabilistic sequence runs its deterministic part, then its final module with _requires_sample; that flag is true
+   iff some sample key of the final module is not produced by the deterministic part *)
+Theorem C14_prob_seq_requires_sample : forall q,
+  q_requires_sample q = true <-> exists k, List.In k (p_out (q_last q)) /\ ~ List.In k (all_out_keys (q_det q)).
+Proof. exact q_requires_sample_spec. Qed.
+Print Assumptions C14_prob_seq_requires_sample.
+Theorem C14_prob_seq_forward : forall f148 f149 now ctx cap q x x',
+  det_run q x = Some (Some x') ->
+  q_forward f148 f149 now ctx cap q x = pm_forward f148 f149 now ctx cap (q_last q) (lift x') None (q_requires_sample q).
+Proof. exact q_forward_is_last. Qed.
+Print Assumptions C14_prob_seq_forward.
+
+(* ---- the repaired defects, each with the behaviour of the library before its repair (switch = false) *)
+Theorem C14_prob_D149_witness : exists m, pm_init false (comp_args true (Some [kLa; kLb])) = Some m
+  /\ pm_out_keys false m = Some [kA; kB; kLa; kLb]
+  /\ written (pm_forward true true false None comp_cap m x0 None true) = [kP; kA; kB; kLa; kLb]
+  /\ written (pm_forward true false false None comp_cap m x0 None true) = [kP; kA; kB; add_suffix kA; add_suffix kB].
+Proof. exact D149_witness. Qed.
+Print Assumptions C14_prob_D149_witness.
+Theorem C14_prob_D148_witness : exists m, pm_init false (comp_args true None) = Some m
+  /\ pm_forward false true false None comp_cap m x1 None false = PRaise
+  /\ written (pm_forward true true false None comp_cap m x1 None false) = [kP; kA; kB; add_suffix kA; add_suffix kB]
+  /\ pget (add_suffix kA) (match pm_forward true true false None comp_cap m x1 None false with PDone x _ => x | _ => [] end)
+     = Some (PL {| d_mod := 1; d_kw := ["params"%string]; d_ps := [Some (In kP)] |} (Some 0) [SUp (In kA)]).
+Proof. exact D148_witness. Qed.
+Print Assumptions C14_prob_D148_witness.
+
+(* non-vacuity: a plain module with dict in_keys, a nested out key, return_log_prob, a context interaction type *)
+Definition ex_pargs : pargs :=
+  {| a_id := 7; a_in := [["p_loc"%string]; ["par"%string; "scale"%string]]; a_dict := Some ["loc"%string; "scale"%string];
+     a_out := Some [["s"%string; "v"%string]]; a_comp := None; a_rlp := true; a_lpk := None; a_lpks := None; a_default := TMode |}.
+Definition ex_cap : dcap :=
+  {| is_lkj := false; has_det := false; reg := None; support_real := None; c_mode := CValue; c_median := CValue;
+     c_mean := CValue; has_rsample := true |}.
+Example C14_ex_prob : exists m, pm_init false ex_pargs = Some m /\ p_comp m = None
+  /\ pm_out_keys false m = Some [["s"; "v"]; ["s"; "v_log_prob"]]%string
+  /\ pm_forward true true false (Some TRandom) ex_cap m (lift [(["p_loc"%string], In ["p_loc"%string])]) None true
+     = PDone [(["p_loc"%string], PV (In ["p_loc"%string]));
+              (["s"; "v"]%string, PS {| d_mod := 7; d_kw := ["loc"; "scale"]%string; d_ps := [Some (In ["p_loc"%string]); None] |} ARsample 0);
+              (["s"; "v_log_prob"]%string,
+               PL {| d_mod := 7; d_kw := ["loc"; "scale"]%string; d_ps := [Some (In ["p_loc"%string]); None] |} None
+                  [SSmp {| d_mod := 7; d_kw := ["loc"; "scale"]%string; d_ps := [Some (In ["p_loc"%string]); None] |} ARsample 0])] None.
+Proof. eexists. repeat split; reflexivity. Qed.
+Example C14_ex_prob_seq : q_requires_sample {| q_det := [Leaf (mk 1 [kz] [kc; kA])]; q_last :=
+    {| pid := 2; p_kw := ["loc"%string]; p_in := [kc]; p_out := [kA; kB]; p_comp := Some [kA; kB]; p_rlp := false;
+       p_lpk := None; p_lpks := Some [add_suffix kA; add_suffix kB]; p_agg := false; p_default := TMode |} |} = true.
+Proof. reflexivity. Qed.
+
 (* ---- non-vacuity *)
 Definition ex_graph : node :=
   Seq {| sinpl := Some IFalse; ssel := Some [kc]; spt := false; sdict := false |}
@@ -158,13 +261,12 @@ Example C14_ex_run : fwd ex_graph [(ka, In ka)] None
   = Done [(ka, In ka)] None
          (RFresh [(kc, App 3 0 [App 2 0 [App 1 0 [In ka]; In ka]])]).
 Proof. reflexivity. Qed.
-Example C14_ex_footprint_hyp : sibling_ok [ka; kb; knx]
-  /\ noseqsel (Seq dcfg [Leaf (mksel 1 [ka] [kb; knx] [knx])]) = true
-  /\ buildable (Seq dcfg [Leaf (mksel 1 [ka] [kb; knx] [knx])]) = true.
-Proof.
-  split; [|split; reflexivity]. intros k k' H1 H2 E.
-  cbn in H1, H2. destruct H1 as [<-|[<-|[<-|[]]]], H2 as [<-|[<-|[<-|[]]]]; cbn in E; try reflexivity; discriminate.
-Qed.
+Example C14_ex_footprint_hyp : noseqsel (Seq dcfg [Leaf (mksel 1 [ka] [kb; knx] [knx])]) = true
+  /\ ~ List.In kny (out_keys (Seq dcfg [Leaf (mksel 1 [ka] [kb; knx] [knx])])).
+Proof. split; [reflexivity|]. cbn. intros [H|[]]; discriminate. Qed.
+Example C14_ex_D143_repaired : fwd d143_node d143_x (Some []) = Done d143_x (Some [(knx, App 1 0 [In ka])]) ROut
+  /\ fwd_gen false d143_node d143_x (Some []) = Done d143_x (Some [(kny, In kny); (knx, App 1 0 [In ka])]) ROut.
+Proof. exact footprint_D143_repaired. Qed.
 (* the former witnesses of D9 and D144 under the repaired behaviour *)
 Example C14_ex_D9_repaired : fwd d9_node d9_x None = Done [(ka, In ka); (kz, In kz); (kc, App 1 1 [In ka])] None RIn.
 Proof. exact footprint_D9_repaired. Qed.
